@@ -23,6 +23,15 @@ import re
 
 MASK = (1 << 64) - 1
 
+# optional instrumentation (tools/socks_stats.py): how often each completeness clause is really evaluated
+STATS = None
+
+
+def _n(key, k=1):
+    """count an evaluation; returns True so that it can sit inside a condition"""
+    if STATS is not None: STATS[key] = STATS.get(key, 0) + k
+    return True
+
 
 def stream_byte(stream, i):
     x = ((stream * 0x9E3779B97F4A7C15) & MASK) ^ ((i * 0xBF58476D1CE4E5B9 + 0x94D049BB133111EB) & MASK)
@@ -159,7 +168,7 @@ class Sock:
 
 def parse(impl, scn):
     T = dict(socks={}, udps={}, binds={}, listens=set(), dns={}, nodes={}, counts=None, proxy=None, crash=None,
-             udp_sent=[], udp_rx=[], nat=False, stopped=False, lossy=False, now=0, udp_recvs={}, udp_closed=set(), assoc=[])
+             udp_sent=[], udp_rx=[], nat=False, stopped=False, lossy=False, now=0, udp_recvs={}, udp_closed=set(), assoc=[], udp_rx_t=[])
     for ln in scn.split("\n"):
         t = ln.split()
         if not t: continue
@@ -249,6 +258,7 @@ def parse(impl, scn):
             elif kind == "urecv":
                 if ec == "ok":
                     T["udp_rx"].append((s, k.get("ep"), n, unhex(k["data"]) if "data" in k else None, k.get("sum")))
+                    T["udp_rx_t"].append(T["now"])
                 del pend[h]
     return T
 
@@ -293,6 +303,7 @@ def _check(impl, scn):
         fails.append(("crash", T["crash"]))
     px = T["proxy"]
     if not px: return fails
+    _n("scenarios"); _n("scenarios_lossless" if not T["lossy"] else "scenarios_lossy")
     ver = px["ver"]
     pxips = T["nodes"].get(px["node"] or "", []) or ["10.0.1.1"]
     pxip = pxips[0]
@@ -304,7 +315,20 @@ def _check(impl, scn):
     assign = match_peers(T, ver, clients, others, listeners)
     expect_counts = [0, 0, 0]
     maybe_counts = [0, 0, 0]       # requests of clients that closed on a lossy path: what was still unacknowledged is lost
-    nassoc = 0
+    nassoc = 0; used_rports = set()
+    n_assoc_req = 0            # complete UDP ASSOCIATE requests (by address) the proxy may have processed
+    for c in clients:
+        g0 = negotiate(ver, bytes(c.sent) + bytes(c.unfinished))
+        if g0["status"] == "request" and g0["req"][0] == 3 and g0["req"][1] == "ip": n_assoc_req += 1
+    def arep(rp):
+        if px["flags"] & 2: return bytes([5, 0, 0, 3, 6]) + b"foobar" + bytes([rp >> 8, rp & 255])
+        return reply5(0, pxip, rp)
+    sole_claim = {}            # relay port -> the one client whose received reply names it
+    for c in clients:
+        g0 = negotiate(ver, bytes(c.sent))
+        if g0["status"] == "request" and g0["req"][0] == 3 and g0["req"][1] == "ip":
+            ok_ports = [px["bind_start"] + k for k in range(n_assoc_req) if verify_chunks(c.rx, bytes(g0["prefix"]) + arep(px["bind_start"] + k))[0]]
+            if len(ok_ports) == 1: sole_claim.setdefault(ok_ports[0], c.name)
     for c in sorted(clients, key=lambda s: (s.connect_t, s.name)):
         S = bytes(c.sent)
         g = negotiate(ver, S)
@@ -346,6 +370,9 @@ def _check(impl, scn):
                         fails.append(("relay", "%s: no connection accepted at %s both received (a prefix of) the %d bytes the client sent after its request and sent what the client received" % (c.name, tep, len(payload))))
                     elif best is not None:
                         relay_peer = best[0]
+                        if complete_ok(T, c, relay_peer) and not c.unfinished:
+                            _n("eval relay complete client->target (CONNECT by %s)" % kind)
+                            if payload: _n("eval relay complete client->target, payload > 0 (CONNECT by %s)" % kind)
                         if complete_ok(T, c, relay_peer) and not c.unfinished and best[1] != len(payload):
                             fails.append(("relay", "%s -> %s: %d of %d bytes arrived at the target although nobody closed" % (c.name, relay_peer.name, best[1], len(payload))))
                         peer_expect = bytes(relay_peer.sent)
@@ -367,18 +394,24 @@ def _check(impl, scn):
                         if o.local and not T["nat"]:
                             lip, lport = o.local.rsplit(":", 1)
                             E += reply5(0, lip, int(lport)) if ver != 4 else reply4(90, lip, int(lport))
+                            _n("eval BIND second reply + relay content")
                             payload = S[g["used"]:]
                             ok, got, d = verify_chunks(o.rx, payload)
                             if not ok: fails.append(("relay", "%s -> %s (BIND): %s" % (c.name, o.name, d)))
-                            elif complete_ok(T, c, o) and got != len(payload):
+                            elif complete_ok(T, c, o) and _n("eval relay complete client->third party (BIND)") and got != len(payload):
                                 fails.append(("relay", "%s -> %s (BIND): %d of %d bytes arrived although nobody closed" % (c.name, o.name, got, len(payload))))
                             peer_expect = bytes(o.sent)
                         else:
                             E = None      # the second reply names an endpoint the trace does not show
             elif cmd == 3:
-                rport = px["bind_start"] + nassoc; nassoc += 1
-                if px["flags"] & 2: E += bytes([5, 0, 0, 3, 6]) + b"foobar" + bytes([rport >> 8, rport & 255])
-                else: E += reply5(0, pxip, rport)
+                # relay ports are handed out from bind_start upwards in the order the proxy PROCESSES the
+                # requests (not visible in the trace when several associations are negotiated at once): any
+                # port of that range not named in another association's reply
+                free = [px["bind_start"] + k for k in range(n_assoc_req)
+                        if px["bind_start"] + k not in used_rports and sole_claim.get(px["bind_start"] + k, c.name) == c.name]
+                rport = ([rp for rp in free if verify_chunks(c.rx, bytes(E) + arep(rp))[0]] or free or [px["bind_start"] + nassoc])[0]
+                nassoc += 1; used_rports.add(rport)
+                E += arep(rport)
                 complete_replies = len(E)
                 if px["flags"] & 1: must_close = True
                 T["assoc"].append(dict(client=c, relay="%s:%d" % (pxip, rport), ep=(addr, port), reply_len=complete_replies, kind=kind))
@@ -392,19 +425,23 @@ def _check(impl, scn):
             elif T["lossy"]:
                 pass                      # a dropped SYN is never retried, a dropped segment only retransmitted when a later ACK arrives,
                                           # and the proxy closes right after a failure reply: completeness is not demanded on lossy paths
-            elif not c.closed and got < complete_replies and not T["crash"]:
+            elif not c.closed and _n("eval reply complete") and got < complete_replies and not T["crash"]:
                 fails.append(("reply", "%s (sent %s…): only %d of the %d reply bytes arrived by the end of the run" % (c.name, S[:24].hex(), got, complete_replies)))
             elif must_close and not c.closed and not T["crash"]:
+                _n("eval closure (%s)" % ("reject" if g["status"] == "reject" else "failure reply"))
                 if got > complete_replies:
                     fails.append(("closure", "%s: received %d bytes, more than the %d reply bytes" % (c.name, got, complete_replies)))
                 if c.rx_end != "eof":
                     fails.append(("closure", "%s (sent %s…): the proxy must disconnect this client, its read ended with %s" % (c.name, S[:24].hex(), c.rx_end)))
             elif relay_peer is not None and peer_expect is not None and complete_ok(T, c, relay_peer):
+                _n("eval relay complete peer->client (%s)" % ("BIND" if g["req"][0] == 2 else "CONNECT by " + g["req"][1]))
+                if peer_expect: _n("eval relay complete peer->client, bytes > 0 (%s)" % ("BIND" if g["req"][0] == 2 else "CONNECT by " + g["req"][1]))
                 if got != len(E):
                     fails.append(("relay", "%s <- %s: %d of %d bytes arrived at the client although nobody closed" % (c.name, relay_peer.name, got, len(E))))
     if T["counts"] is not None and not T["crash"]:
         # on a lossy path a request may never arrive (a segment dropped again and again, a dropped SYN): upper bound only
         lo = [0, 0, 0] if T["lossy"] else expect_counts
+        if not T["lossy"]: _n("eval counters lower bound")
         if any(not (lo[i] <= T["counts"][i] <= expect_counts[i] + maybe_counts[i]) for i in range(3)):
             fails.append(("counters", "cmd_counts() = %s, requests received: %s (+ at most %s from clients that closed on a lossy path)" % (T["counts"], expect_counts, maybe_counts)))
     fails += udp_check(T, px, pxip)
@@ -479,9 +516,21 @@ def udp_complete(T, px):
         relay = a["relay"]
         aip, aport = a["ep"]
         # the client's UDP socket: bound to the endpoint the request named (0.0.0.0 = the TCP client's address)
-        cu = [u for u, ep in T["udps"].items() if ep.rsplit(":", 1)[1] == str(aport) and (aip == "0.0.0.0" or ep.rsplit(":", 1)[0] == aip)]
+        t_learn = None
+        if aport != 0:
+            cu = [u for u, ep in T["udps"].items() if ep.rsplit(":", 1)[1] == str(aport) and (aip == "0.0.0.0" or ep.rsplit(":", 1)[0] == aip)]
+        else:
+            # port 0: the relay takes the source port of the first datagram that arrives from the named address
+            # (0.0.0.0 = the address of the TCP connection) as the client's. Decidable from the trace when only
+            # one socket of that address ever sends to this relay; replies can only be returned once the port
+            # is known, i.e. (visibly) once the relay has forwarded something
+            cip = aip if aip != "0.0.0.0" else (T["nodes"].get(c.node or "", [None])[0])
+            cu = sorted(set(u for (u, ep, d, ts) in T["udp_sent"] if ep == relay and u in T["udps"] and T["udps"][u].rsplit(":", 1)[0] == cip))
+            fw = [tt for (x, tt) in zip(T["udp_rx"], T["udp_rx_t"]) if x[1] == relay]
+            t_learn = min(fw) if fw else float("inf")
         if len(cu) != 1 or cu[0] in T["udp_closed"]: continue
         cu = cu[0]
+        _n("udp association eligible for delivery (request port %s)" % ("0" if aport == 0 else "given"))
         expected = {}       # target socket -> number of datagrams it must get
         for (u, ep, d, ts) in T["udp_sent"]:
             if u != cu or ep != relay or d is None or ts <= t_reply: continue
@@ -500,12 +549,15 @@ def udp_complete(T, px):
             got = sum(1 for (u, src, n, d, sm) in T["udp_rx"] if u == tu and src == relay)
             allrx = sum(1 for (u, src, n, d, sm) in T["udp_rx"] if u == tu)
             pending = T["udp_recvs"].get(tu, 0) - allrx
+            _n("eval udp delivery client->target (datagrams)", cnt); _n("eval udp delivery client->target (associations)")
             if got < cnt and pending > 0:
                 fails.append(("udp", "%s received %d of the %d well-formed datagrams the client sent it through the relay %s, and is still waiting" % (tu, got, cnt, relay)))
         # replies
-        back = sum(1 for (u, ep, d, ts) in T["udp_sent"] if u != cu and ep == relay and ts > t_reply and d is not None and len(d) > 0 and u not in T["udp_closed"])
+        back = sum(1 for (u, ep, d, ts) in T["udp_sent"] if u != cu and ep == relay and ts > t_reply and d is not None and len(d) > 0 and u not in T["udp_closed"]
+                   and (t_learn is None or ts > t_learn))
         gotb = sum(1 for (u, src, n, d, sm) in T["udp_rx"] if u == cu and src == relay)
         allb = sum(1 for (u, src, n, d, sm) in T["udp_rx"] if u == cu)
+        if back: _n("eval udp delivery target->client (datagrams)", back)
         if gotb < back and T["udp_recvs"].get(cu, 0) - allb > 0:
             fails.append(("udp", "the client's socket %s received %d of the %d datagrams sent to the relay %s by others, and is still waiting" % (cu, gotb, back, relay)))
     return fails
